@@ -455,6 +455,10 @@ def _write_external_data(
         os.path.realpath(requested_path) if os.path.islink(requested_path) else requested_path
     )
     destination_dir = os.path.dirname(destination_path) or "."
+    if not os.path.basename(destination_path):
+        # "" or "dir/": refused while nothing has been created yet (the temporary file would
+        # get an empty name and could not be cleaned up)
+        raise ValueError(f"The external data path '{requested_path}' does not name a file.")
     # Find the tensors backed by the destination before the temporary directory
     # exists, so that a failure here (e.g. an invalid location) leaves nothing behind
     overwritten_tensors = [
